@@ -214,6 +214,75 @@ def cfit_derivs(ctx):
                    _S(ctx, _d(_d(total, th, k), th, l)), clause="h[k][l] == J^T H J + sum_y (dLL/dy) d^2 y  (total second derivative)")
 
 
+# ------------------------------------------------------------------ ModelCfitExtended
+@group(["C07", "C06"], "model.cfit.ModelCfitExtended/derivatives", ["model.cfit:ModelCfitExtended.nll_grad_batch", "model.cfit:ModelCfitExtended.nll_grad_hessian"],
+       no_native=True, assumes=AD)
+def cfit_extended_derivs(ctx):
+    """value == -LL(theta, I_sig, I_bg) - (sum w) ln(I_sig / (1 - w_bkg)) + I_sig / (1 - w_bkg)  (the documented extended term with
+    lambda = I_sig / (1 - f_bg)); gradient / Hessian == TOTAL derivatives of that value through both integrals"""
+    cfit = ctx.mod("model.cfit")
+    th = _theta(ctx)
+    declare_uf("SIG", 2)
+    declare_uf("BG", 2)
+    declare_uf("L4", 4)
+    S = uf("SIG", th)
+    B = uf("BG", th)
+    obj = cfit.ModelCfitExtended.__new__(cfit.ModelCfitExtended)
+    obj.sig = _Dummy(name="sig")
+    obj.bg = _Dummy(name="bg")
+    obj.vm = _Dummy(trainable_variables=["v0", "v1"])
+    obj.w_bkg = ctx.real("w_bkg", ())
+    obj.resolution_size = 1
+    obj.get_weight_data = lambda data, weight=1.0, bg=None, **kw: (data, weight)
+
+    def pick(f, var):
+        if f is obj.sig:
+            return "SIG", list(th)
+        if f is obj.bg:
+            return "BG", list(th)
+        aux = [_terms(v)[0] for v in var[-2:]]
+        return "L4", list(th) + aux
+
+    def sum_gradient(f, data, var, weight=1.0, trans=None, resolution_size=1, args=(), kwargs=None):
+        base, args_ = pick(f, var)
+        n = len(args_)
+        return _S(ctx, uf(base, args_)), [_S(ctx, uf(base, args_, (i,))) for i in range(n)]
+
+    def sum_hessian(f, data, var, weight=1.0, trans=None, resolution_size=1, args=(), kwargs=None):
+        base, args_ = pick(f, var)
+        n = len(args_)
+        g = np.empty((n,), dtype=object)
+        h = np.empty((n, n), dtype=object)
+        for i in range(n):
+            g[i] = uf(base, args_, (i,))
+            for j in range(n):
+                h[i, j] = uf(base, args_, (i, j))
+        return _S(ctx, uf(base, args_)), g, h
+
+    cfit.sum_gradient, cfit.sum_hessian = sum_gradient, sum_hessian
+    w = ctx.real("w", (2,))
+    mcw = ctx.real("mcw", (2,))
+    wb = _terms(obj.w_bkg)[0]
+    ctx.require(_S(ctx, S) > 0.0, "signal integral positive")
+    ctx.require(obj.w_bkg < 1.0, "background fraction below one")
+    ctx.require(obj.w_bkg >= 0.0)
+    sw = tm.add(*_terms(w))
+    lam = tm.div(S, tm.add(tm.ONE, tm.neg(wb)))
+    total = tm.add(tm.add(tm.neg(uf("L4", list(th) + [S, B])), tm.neg(tm.mul(sw, tm.fn("log", lam)))), lam)
+    nll, g = obj.nll_grad_batch([{}], [{}], w, [mcw])
+    ctx.eq("nll_grad_batch.value", nll, _S(ctx, total), clause="returned value == -LL(theta, I_sig, I_bg) - (sum w) ln lambda + lambda,  lambda = I_sig / (1 - w_bkg)")
+    for k in range(2):
+        ctx.eq("nll_grad_batch.grad[%d]" % k, g[k], _S(ctx, _d(total, th, k)),
+               clause="g[k] == TOTAL derivative d/d theta_k of the returned value (chain rule through both integrals and the extended term)")
+    nll2, g2, h2 = obj.nll_grad_hessian({}, {}, weight=w, batch=24000, bg=None, mc_weight=mcw)
+    ctx.eq("nll_grad_hessian.value", nll2, _S(ctx, total), clause="returned value == the same extended NLL")
+    for k in range(2):
+        ctx.eq("nll_grad_hessian.grad[%d]" % k, g2[k], _S(ctx, _d(total, th, k)), clause="g[k] == total derivative")
+        for l in range(2):
+            ctx.eq("nll_grad_hessian.hess[%d][%d]" % (k, l), _S(ctx, tm._l(h2[k][l]) if not hasattr(h2[k][l], "a") else _terms(h2[k][l])[0]),
+                   _S(ctx, _d(_d(total, th, k), th, l)), clause="h[k][l] == total second derivative of the returned value (incl. the extended term)")
+
+
 # ------------------------------------------------------------------ Gaussian constraints, FCN, CombineFCN
 def _vm_stub(ctx, names, trainable, bounded=()):
     """parameter values are raw scalar terms (np.array([...]) of them stays an object array, as np.array of tf scalars stays numeric)"""
@@ -822,3 +891,151 @@ def combine_point_passed(ctx):
     g = cf.grad(arg)
     for k in range(2):
         ctx.eq("grad/grad[%d]" % k, _S(ctx, _el(g[k])), _S(ctx, _d(value, th, k)), clause="grad(x)[k] at the passed point, constraint included")
+
+
+# ------------------------------------------------------------------ ModelCachedInt (model/opt_int.py)
+@group(["C07", "C05"], "model.opt_int.ModelCachedInt/derivatives",
+       ["model.opt_int:ModelCachedInt.nll_grad_batch", "model.opt_int:ModelCachedInt.nll_grad_hessian", "model.opt_int:sum_gradient", "model.opt_int:ModelCachedInt.get_cached_int"],
+       no_native=True, cost=8,
+       bound="2 batches of 2 and 1 data events; the cached integral is an arbitrary smooth function INT(theta) of two parameters, the cached per-event densities arbitrary "
+             "smooth functions (the statement's precondition - fixed line-shape parameters - is what makes these caches valid and is not needed for this clause)",
+       assumes=["A-AD (reduced): GradientTape returns the mathematical derivative of the recorded computation (modelled by terms.diff)",
+                "model.sum_hessian returns value / gradient / Hessian of the weighted clip_log sum (proved in model.autodiff_helpers/*)"])
+def cached_int_derivs(ctx):
+    """cached_int likelihood: value == -sum_i w_i clip_log f_i(theta) + (sum w) ln INT(theta) - the default model's formula with the same
+    clip_log as the default (a plain log would differ for densities below 1e-6) - and gradient / Hessian are its derivatives"""
+    tf, shim = ctx.tf, ctx.shim
+    oi = ctx.mod("model.opt_int")
+    model = ctx.mod("model.model")
+    th_t = [ctx.real("theta%d" % i, ()) for i in range(2)]
+    th = [t.a[()] for t in th_t]
+    var = [tf.Variable(t) for t in th_t]
+    declare_uf("INT", 2)
+    declare_uf("LL", 2)
+    S = lambda t: shim.STensor(shim._arr(t))  # noqa: E731
+    obj = oi.ModelCachedInt.__new__(oi.ModelCachedInt)
+    obj.Amp = _Dummy(trainable_variables=var, decay_group=None)
+    obj.w_bkg = 1.0
+    obj.resolution_size = 1
+    # data side: two batches of cached per-event densities
+    data = [{"b": 0}, {"b": 1}]
+    names = [["F00", "F01"], ["F10"]]
+    weight = [ctx.real("w0", (2,)), ctx.real("w1", (1,))]
+    for b in names:
+        for n in b:
+            declare_uf(n, 2)
+
+    def mk(bn):
+        def f():
+            o = np.empty((len(bn),), dtype=object)
+            for i, n in enumerate(bn):
+                o[i] = uf(n, th)
+            return shim.STensor(o)
+        return f
+
+    obj.cached_amp = {id(data): [mk(b) for b in names]}
+    mcdata = [{"mc": 0}]
+    obj.cached_int = {id(mcdata): (lambda: S(uf("INT", th)))}
+    ctx.require(S(uf("INT", th)) > 0.0, "normalisation integral positive")
+
+    def clip(x):
+        o = np.empty((), dtype=object)
+        o[()] = x
+        return shim.elems(model.clip_log(shim.STensor(o)))[0]
+
+    ll = tm.ZERO
+    sw = tm.ZERO
+    for bn, ws in zip(names, weight):
+        w = [tm._l(x) for x in ws.a.reshape(-1)]
+        for n, wi in zip(bn, w):
+            ll = tm.add(ll, tm.mul(wi, clip(uf(n, th))))
+            sw = tm.add(sw, wi)
+    spec = tm.add(tm.neg(ll), tm.mul(sw, tm.fn("log", uf("INT", th))))
+    nll, g = obj.nll_grad_batch(data, mcdata, weight, [ctx.real("mcw", (2,))])
+    ctx.eq("nll_grad_batch.value", nll, S(spec), clause="cached_int value == -sum_i w_i clip_log f(x_i) + (sum w) ln INT  (the default model's formula, same clip_log)")
+    for k in range(2):
+        ctx.eq("nll_grad_batch.grad[%d]" % k, g[k], S(_d(spec, th, k)), clause="cached_int g[k] == d(returned nll)/d theta_k")
+    # Hessian entry: data term summarised by the (proved) contract of model.sum_hessian
+    def sum_hessian(f, data_, var_, weight=1.0, trans=None, resolution_size=1, args=(), kwargs=None):
+        gg = np.empty((2,), dtype=object)
+        hh = np.empty((2, 2), dtype=object)
+        for i in range(2):
+            gg[i] = uf("LL", th, (i,))
+            for j in range(2):
+                hh[i, j] = uf("LL", th, (i, j))
+        return S(uf("LL", th)), shim.STensor(gg), shim.STensor(hh)
+
+    oi.sum_hessian = sum_hessian
+    obj.get_weight_data = lambda data, weight=1.0, bg=None, **kw: (data, weight)
+    wd = ctx.real("wd", (3,))
+    mcw = ctx.real("mcw3", (2,))
+    ctx.require(tf.reduce_sum(mcw) > 0.0, "phase-space weights with positive sum")
+    mc2 = {"mc": 1}
+    obj.cached_int[id(mc2)] = (lambda: S(uf("INT", th)))
+    nll2, g2, h2 = obj.nll_grad_hessian({"d": 0}, mc2, weight=wd, batch=24000, bg=None, mc_weight=mcw)
+    sw2 = tm.ZERO
+    for x in wd.a.reshape(-1):
+        sw2 = tm.add(sw2, tm._l(x))
+    nmc = tm.ZERO
+    for x in mcw.a.reshape(-1):
+        nmc = tm.add(nmc, tm._l(x))
+    spec2 = tm.add(tm.neg(uf("LL", th)), tm.mul(sw2, tm.fn("log", tm.div(uf("INT", th), nmc))))
+    ctx.eq("nll_grad_hessian.value", nll2, S(spec2), clause="value == -LL + (sum w) ln(INT / sum mc_weight)")
+    g2a = shim._arr(g2).reshape(-1)
+    h2a = shim._arr(h2).reshape(2, 2)
+    for k in range(2):
+        ctx.eq("nll_grad_hessian.grad[%d]" % k, S(tm._l(g2a[k])), S(_d(spec2, th, k)), clause="g[k] == d value / d theta_k")
+        for l in range(2):
+            ctx.eq("nll_grad_hessian.hess[%d][%d]" % (k, l), S(tm._l(h2a[k][l])), S(_d(_d(spec2, th, k), th, l)),
+                   clause="h[k][l] == d^2 value / d theta_k d theta_l (incl. the outer-product term of ln INT)")
+
+
+# ------------------------------------------------------------------ C06: the cfit value formulas (documented signal / background mixture)
+def _mk_cfit_value(n_data, n_mc, extended, with_mcw):
+    def g(ctx):
+        tf = ctx.tf
+        cfit = ctx.mod("model.cfit")
+        w = ctx.real("w", (n_data,), lambda r: [r.choice([-1, 1]) * r.uniform(0.2, 2) for _ in range(n_data)])
+        v = ctx.real("v", (n_mc,), lambda r: [r.uniform(0.2, 2) for _ in range(n_mc)])
+        sd = ctx.real("sd", (n_data,), lambda r: [r.uniform(0.1, 3) for _ in range(n_data)])
+        bd = ctx.real("bd", (n_data,), lambda r: [r.uniform(0.1, 3) for _ in range(n_data)])
+        sm = ctx.real("sm", (n_mc,), lambda r: [r.uniform(0.1, 3) for _ in range(n_mc)])
+        bm = ctx.real("bm", (n_mc,), lambda r: [r.uniform(0.1, 3) for _ in range(n_mc)])
+        f = ctx.real("f_bg", (), lambda r: r.uniform(0.01, 0.6))
+        for t in (sd, bd, sm, bm, v):
+            ctx.require(t > 0.0)
+        ctx.require(f > 0.0)
+        ctx.require(f < 1.0)
+        for i in range(n_data):
+            ctx.require(tf.abs(w[i]) > 0.0, "non-zero event weights (exact zeros: bounded groups zero_weight/*)")
+        cls = cfit.ModelCfitExtended if extended else cfit.Model_cfit
+        obj = cls.__new__(cls)
+        obj.sig = lambda d: sd if d["_tag"] == "data" else sm
+        obj.bg = lambda d: bd if d["_tag"] == "data" else bm
+        obj.w_bkg = f
+        obj.resolution_size = 1
+        obj.get_weight_data = lambda data, weight=1.0, bg=None, **kw: (data, weight)
+        mcw = v if with_mcw else None
+        nll = obj.nll({"_tag": "data"}, {"_tag": "mc"}, weight=w, mc_weight=mcw)
+        if with_mcw:
+            I_s, I_b = tf.reduce_sum(v * sm), tf.reduce_sum(v * bm)
+        else:
+            I_s, I_b = tf.reduce_sum(sm) / float(n_mc), tf.reduce_sum(bm) / float(n_mc)
+        P = (1.0 - f) * sd / I_s + f * bd / I_b
+        ctx.require(P > 1e-6, "mixture density above the clip of clip_log")
+        spec = -tf.reduce_sum(w * tf.math.log(P))
+        if extended:
+            lam = I_s / (1.0 - f)
+            spec = spec - tf.reduce_sum(w) * tf.math.log(lam) + lam
+        ctx.eq("value", nll, spec, clause="%s.nll == -sum_i w_i ln[(1-f) sig(x_i)/I_sig + f bg(x_i)/I_bg]%s, I = %s over the phase-space sample"
+               % (cls.__name__, " - (sum w) ln lambda + lambda, lambda = I_sig/(1-f)" if extended else "", "sum_j v_j (.)" if with_mcw else "mean"))
+
+    return g
+
+
+for _nd in (1, 2):
+    for _ext in (False, True):
+        for _mcw in (True, False):
+            group(["C06"], "model.cfit.%s.nll/value/n=%d/%s" % ("ModelCfitExtended" if _ext else "Model_cfit", _nd, "mc_weight" if _mcw else "mc_mean"),
+                  ["model.cfit:%s.nll" % ("ModelCfitExtended" if _ext else "Model_cfit"), "model.model:clip_log", "model.model:BaseModel.sum_resolution"], no_native=True,
+                  bound="tensor lengths n_data=%d, n_mc=2 (reduce_sum mixes the batch axis: proof is per length); resolution_size 1" % _nd)(_mk_cfit_value(_nd, 2, _ext, _mcw))
